@@ -16,6 +16,14 @@ import (
 
 type errorChan chan error
 
+// panicToError turns a recovered panic value into the error of the query.
+func panicToError(r interface{}) error {
+	if err, ok := r.(error); ok {
+		return errors.Wrapf(err, "unexpected error")
+	}
+	return errors.Newf("unexpected error: %v", r)
+}
+
 func (c errorChan) getError() error {
 	for err := range c {
 		if err != nil {
@@ -84,6 +92,11 @@ func (c *coalesceOperator) Next(ctx context.Context) ([]model.StepVector, error)
 		c.wg.Add(1)
 		go func(opIdx int, o model.VectorOperator) {
 			defer c.wg.Done()
+			defer func() {
+				if r := recover(); r != nil {
+					errChan <- panicToError(r)
+				}
+			}()
 
 			in, err := o.Next(ctx)
 			verifhook.Point("coalesce.merge", opIdx)
@@ -153,16 +166,9 @@ func (c *coalesceOperator) loadSeries(ctx context.Context) error {
 		go func(i int) {
 			defer wg.Done()
 			defer func() {
-				e := recover()
-				if e == nil {
-					return
+				if e := recover(); e != nil {
+					errChan <- panicToError(e)
 				}
-
-				switch err := e.(type) {
-				case error:
-					errChan <- errors.Wrapf(err, "unexpected error")
-				}
-
 			}()
 			verifhook.Point("coalesce.series", i)
 			series, err := c.operators[i].Series(ctx)
